@@ -15,7 +15,10 @@ out.append('Each change was written by a fresh sub-agent that saw only the text 
            '(34/34 baseline tests, 108 passing in total), the demo exits 1 on the patched copy and 0 on a clean one. The last column '
            'gives every quick check (seed 0) that reported a `VIOLATION` on the patched copy when the change was kept (with the machinery of that moment; '
            'later strengthening only adds checks to these lists); the check of the change\'s own property was re-run on every kept change with the final '
-           'machinery (`tools/reeval_all.py --own-only`).\n')
+           'machinery (`tools/reeval_all.py --own-only`). Two kept changes were affected by later repairs of `/repo`: `C13-missing-thresholds-inherit-previous-epoch` '
+           'no longer applied after repair D13 rewrote the neighbouring lines and was rebased (same one-line change, re-confirmed); '
+           '`C04-volt-amp-mean-in-signal-dtype` (round 7: `volt_amp` averaged in the dtype of the signal) became inert once repair D14 made '
+           '`compute_shape_features` analyse integer recordings as floats - its own demo passes on the patched copy - and was retired.\n')
 out.append('| seeded change | breaks | needs, in order to manifest | caught by (quick, seed 0) |')
 out.append('|---|---|---|---|')
 rows = []
